@@ -43,6 +43,11 @@ ASSUMPTIONS = ["sub-word AMOs are outside the property (the implementation adds 
 BASE = 0x1000
 WIN = 64
 ReqT, RespT = mk_mem_msg(8, 32, 32)
+TYPES = {32: (ReqT, RespT), 64: mk_mem_msg(8, 32, 64), 16: mk_mem_msg(8, 32, 16)}     # per-port data widths
+
+
+def _types(widths, nports):
+  return [TYPES[w] for w in (widths or [32] * nports)]
 
 
 # ---------------------------------------------------------------------------
@@ -50,7 +55,7 @@ ReqT, RespT = mk_mem_msg(8, 32, 32)
 # ---------------------------------------------------------------------------
 
 class SrcCL(Component):
-  def construct(s, msgs, gaps, ctl, log, port):
+  def construct(s, msgs, gaps, ctl, log, port, ReqT=ReqT):
     s.send = CallerIfcCL(Type=ReqT)
     s.idx = 0
     s.wait = gaps[0] if gaps else 0
@@ -96,10 +101,11 @@ class Clock(Component):
 
 
 class TopCL(Component):
-  def construct(s, nports, stall_prob, latency, msgs, gaps, patterns, ctl, log, T):
+  def construct(s, nports, stall_prob, latency, msgs, gaps, patterns, ctl, log, T, widths=None):
     from pymtl3.stdlib.mem.MagicMemoryCL import MagicMemoryCL
-    s.srcs = [SrcCL(msgs[i], gaps[i], ctl, log, i) for i in range(nports)]
-    s.mem = MagicMemoryCL(nports, [(ReqT, RespT)] * nports, stall_prob, latency)
+    ty = _types(widths, nports)
+    s.srcs = [SrcCL(msgs[i], gaps[i], ctl, log, i, ty[i][0]) for i in range(nports)]
+    s.mem = MagicMemoryCL(nports, ty, stall_prob, latency)
     s.sinks = [SinkCL(patterns[i], ctl, log, i) for i in range(nports)]
     for i in range(nports):
       connect(s.srcs[i].send, s.mem.ifc[i].req)
@@ -107,7 +113,7 @@ class TopCL(Component):
 
 
 class SrcRTL(Component):
-  def construct(s, msgs, gaps, ctl, log, port):
+  def construct(s, msgs, gaps, ctl, log, port, ReqT=ReqT):
     s.send = SSendIfcRTL(ReqT)
     s.idx = 0
     s.wait = 0
@@ -134,7 +140,7 @@ class SrcRTL(Component):
 
 
 class SinkRTL(Component):
-  def construct(s, pattern, ctl, log, port):
+  def construct(s, pattern, ctl, log, port, RespT=RespT):
     s.recv = SRecvIfcRTL(RespT)
 
     @update_ff
@@ -159,11 +165,12 @@ class ClockRTL(Component):
 
 
 class TopRTL(Component):
-  def construct(s, nports, stall_prob, latency, msgs, gaps, patterns, ctl, log, T):
+  def construct(s, nports, stall_prob, latency, msgs, gaps, patterns, ctl, log, T, widths=None):
     from pymtl3.stdlib.stream.magic_memory import MagicMemoryRTL
-    s.srcs = [SrcRTL(msgs[i], gaps[i], ctl, log, i) for i in range(nports)]
-    s.mem = MagicMemoryRTL(nports, [(ReqT, RespT)] * nports, stall_prob, latency)
-    s.sinks = [SinkRTL(patterns[i], ctl, log, i) for i in range(nports)]
+    ty = _types(widths, nports)
+    s.srcs = [SrcRTL(msgs[i], gaps[i], ctl, log, i, ty[i][0]) for i in range(nports)]
+    s.mem = MagicMemoryRTL(nports, ty, stall_prob, latency)
+    s.sinks = [SinkRTL(patterns[i], ctl, log, i, ty[i][1]) for i in range(nports)]
     for i in range(nports):
       connect(s.srcs[i].send, s.mem.ifc[i].req)
       connect(s.mem.ifc[i].resp, s.sinks[i].recv)
@@ -230,26 +237,29 @@ class SeededRandomFactory:
 # case generation
 # ---------------------------------------------------------------------------
 
-def gen_reqs(inp, n, opq0):
+def gen_reqs(inp, n, opq0, width=32):
   out = []
+  nb = width // 8
   for k in range(n):
     r = inp.random()
     if r < 0.42:
       typ = MM.READ
-    elif r < 0.84:
-      typ = MM.WRITE
+    elif r < 0.84 or width != 32:          # AMOs are defined for 32-bit ports
+      typ = MM.WRITE if r >= 0.42 else MM.READ
     else:
       typ = inp.choice(MM.AMOS)
     if typ in MM.AMOS:
       ln = 0
       off = inp.randrange(0, WIN - 4)
     else:
-      ln = inp.choice([0, 0, 1, 2, 3])
-      off = inp.randrange(0, WIN - 4)
+      ln = inp.choice([0, 0] + list(range(1, nb)))      # 0 = the port's full data width
+      off = inp.randrange(0, WIN - nb)
     # bias to a few hot addresses so that ports interact
     if inp.random() < 0.5:
       off = inp.choice([0, 2, 4, 5, 8])
     data = inp.getrandbits(32) if inp.random() < 0.8 else inp.choice([0, 0xffffffff, 0x80000000, 0x7fffffff])
+    if width != 32:
+      data = inp.getrandbits(width)
     out.append([typ, off, ln, data, (opq0 + k) & 0xff])
   return out
 
@@ -269,7 +279,11 @@ def gen_case(R, tier):
   nports = c.choice([1, 1, 2, 2, 3, 4]) if dut == "cl" else c.choice([1, 2, 2, 3])
   lat = c.choice([0, 1, 1, 2, 3, 5, 8]) if dut == "cl" else c.choice([0, 0, 1, 2, 4, 6])
   nreq = [inp.randint(5, 30) for _ in range(nports)]
-  reqs = [gen_reqs(inp, nreq[i], 64 * i) for i in range(nports)]
+  # ports of one memory may carry different data widths (len == 0 means the PORT's full width)
+  widths = [32] * nports
+  if c.random() < 0.3:
+    widths = [c.choice([32, 64, 64, 16]) for _ in range(nports)]
+  reqs = [gen_reqs(inp, nreq[i], 64 * i, widths[i]) for i in range(nports)]
   gaps = [[flt.choice([0, 0, 0, 1, 2, 5]) for _ in range(nreq[i] + 1)] for i in range(nports)]
   pprob = flt.choice([1.0, 0.8, 0.5, 0.3])
   patterns = [[1 if flt.random() < pprob else 0 for _ in range(37)] for _ in range(nports)]
@@ -279,7 +293,7 @@ def gen_case(R, tier):
   T = flt.randint(20, 150)
   scheds = ("default", "default_s2", "mamba", "mamba_s2", "simple", "simple_s2", "heutopo", "unroll", "forced")
   return {"dut": dut, "nports": nports, "latency": lat, "stall_prob": flt.choice([0, 0.2, 0.5, 0.8]),
-          "reqs": reqs, "gaps": gaps, "patterns": patterns, "T": T, "stall_seed": R.sub_seed("stall"),
+          "reqs": reqs, "widths": widths, "gaps": gaps, "patterns": patterns, "T": T, "stall_seed": R.sub_seed("stall"),
           "sched": [s.choice(scheds), s.getrandbits(32)], "hash_seed": R.sub_seed("hash"),
           "alt": {"latency": c.choice([0, 1, 2, 4]), "stall_prob": flt.choice([0, 0.5]),
                   "stall_seed": R.sub_seed("stall2")}}
@@ -289,8 +303,9 @@ def gen_case(R, tier):
 # running
 # ---------------------------------------------------------------------------
 
-def mk_msgs(reqs):
-  return [ReqT(typ, opq, BASE + off, ln, data) for (typ, off, ln, data, opq) in reqs]
+def mk_msgs(reqs, width=32):
+  R = TYPES[width][0]
+  return [R(typ, opq, BASE + off, ln, data) for (typ, off, ln, data, opq) in reqs]
 
 
 def install_recorder(flmem, plog):
@@ -354,11 +369,12 @@ def simulate(case, latency, stall_prob, stall_seed, stats):
   sched, sseed = case["sched"]
   try:
     nports = case["nports"]
-    msgs = [mk_msgs(r) for r in case["reqs"]]
+    widths = case.get("widths") or [32] * nports
+    msgs = [mk_msgs(r, widths[i]) for i, r in enumerate(case["reqs"])]
     Top = TopCL if dut == "cl" else TopRTL
 
     def build():
-      return Top(nports, stall_prob, latency, msgs, case["gaps"], case["patterns"], ctl, log, case["T"])
+      return Top(nports, stall_prob, latency, msgs, case["gaps"], case["patterns"], ctl, log, case["T"], widths)
     top = build()
     top.elaborate()
     try:
@@ -435,7 +451,7 @@ def check_history(case, log, plog, image, ncyc, latency, stats):
     else:
       stats["probes"]["reprocessed_events"] += 1
     typ, off, ln, rdata, _ = reqs[p][k]
-    n = ln or 4
+    n = ln or (case.get("widths") or [32] * nports)[p] // 8
     want_op = "rd" if typ == MM.READ else ("wr" if typ == MM.WRITE else "amo%d" % typ)
     want_data = 0 if typ == MM.READ else (rdata & ((1 << (8 * n)) - 1) if typ == MM.WRITE else rdata)
     if (op, addr, nbytes) != (want_op, BASE + off, n) or (typ != MM.READ and data != want_data):
@@ -448,7 +464,7 @@ def check_history(case, log, plog, image, ncyc, latency, stats):
         amo_first[(p, k)] = [v0, 1, True]
       else:
         amo_first[(p, k)][1] += 1
-    val = model.apply(typ, addr, ln, rdata)
+    val = model.apply(typ, addr, n, rdata)
     if typ != MM.WRITE and ret != val:
       bad("memory_value", port=p, index=k, op=op, addr=addr, got=ret, want=val)
       return viols
@@ -575,6 +591,8 @@ def run_case(case):
   if err:
     return {"violations": [err], "digest": D.hex(), "nontrivial": False, "stats": stats}
   stats["fault_counts"]["delay.latency=%d" % case["latency"]] = 1
+  if len(set(case.get("widths") or [32])) > 1 or set(case.get("widths") or [32]) != {32}:
+    stats["fault_counts"]["config.non_32bit_or_mixed_port_widths"] = 1
   stats["fault_counts"]["stall.prob=%s" % case["stall_prob"]] = 1
   stats["fault_counts"]["stall.sink_backpressure_cycles"] = sum(p.count(0) for p in case["patterns"])
   stats["fault_counts"]["stall.source_gaps"] = sum(sum(1 for g in gs if g) for gs in case["gaps"])
@@ -585,7 +603,7 @@ def run_case(case):
   touched = {}
   for p, rs in enumerate(case["reqs"]):
     for typ, off, ln, data, opq in rs:
-      n = ln or 4
+      n = ln or (case.get("widths") or [32] * case["nports"])[p] // 8
       if off % 4 + n > 4:
         stats["probes"]["straddling_access"] += 1
       if typ in MM.AMOS:
